@@ -561,9 +561,11 @@ pub fn block_bytes(b: &Block) -> Vec<u8> {
 /// `Mempool::bundle_genesis_block`.
 pub async fn make_genesis(node: &LNode, ts: Timestamp, issuance: &[(PK, u64)]) -> Block {
     let mut txs = vec![];
-    for (pk, amount) in issuance {
+    for (i, (pk, amount)) in issuance.iter().enumerate() {
         let mut tx = Transaction::create_issuance_transaction(*pk, *amount);
-        tx.timestamp = ts;
+        // distinct timestamps: identical issuance transactions would have identical signatures
+        // and collapse into one entry of the producer's signature-keyed pool
+        tx.timestamp = ts + i as u64;
         tx.generate(&node.key.pk, 0, 0);
         tx.sign(&node.key.sk);
         txs.push(tx);
